@@ -151,15 +151,16 @@ type setG struct {
 }
 
 type universe struct {
-	v6       bool
-	stress   bool // long CIDR / port lists, so that programs are split in the middle of a rule
-	cidrs    []cidrT
-	other    []cidrT
-	netSets  []setG
-	portSets []setG
-	ranges   [][2]int
-	icmps    [][2]int
-	ids      map[string]uint64
+	v6        bool
+	stress    bool // long CIDR / port lists, so that programs are split in the middle of a rule
+	keyStress bool // rules with several IP-set-type lookups on one leg (selector set, then ports, then named-port set)
+	cidrs     []cidrT
+	other     []cidrT
+	netSets   []setG
+	portSets  []setG
+	ranges    [][2]int
+	icmps     [][2]int
+	ids       map[string]uint64
 }
 
 func (u *universe) GetNoAlloc(id string) uint64 { return u.ids[id] }
@@ -530,6 +531,195 @@ func (u *universe) genRule(r *rng, action string, feat string) ruleG {
 	return ruleG{pr: pr, coq: fmt.Sprintf("(Build_brule %s %s %s)", rule, pnC, npnC), criteria: crit, invalid: len(pr.DstIpSetIds) > 1}
 }
 
+// coqOfRule derives the Coq term of a rule from the proto.Rule itself.
+func (u *universe) coqOfRule(pr *proto.Rule) string {
+	ipver := "oV"
+	switch pr.IpVersion {
+	case proto.IPVersion_IPV4:
+		ipver = "(sV V4)"
+	case proto.IPVersion_IPV6:
+		ipver = "(sV V6)"
+	}
+	protoC := func(p *proto.Protocol) (string, string) {
+		if p == nil {
+			return "oN", "oK"
+		}
+		switch x := p.NumberOrName.(type) {
+		case *proto.Protocol_Name:
+			nm := strings.ToLower(x.Name)
+			return fmt.Sprintf("(sN %d)", pnameNum[nm]), fmt.Sprintf("(sK %s)", pnameCoq[nm])
+		case *proto.Protocol_Number:
+			return fmt.Sprintf("(sN %d)", x.Number), "oK"
+		}
+		return "oN", "oK"
+	}
+	nets := func(xs []string) string {
+		var cq []string
+		for _, t := range xs {
+			_, n, err := net.ParseCIDR(t)
+			if err != nil {
+				panic(err)
+			}
+			ones, _ := n.Mask.Size()
+			v6 := strings.Contains(t, ":")
+			cq = append(cq, mkCIDR(v6, new(big.Int).SetBytes(n.IP), ones).coq())
+		}
+		return coqListT(cq, "nC")
+	}
+	ports := func(xs []*proto.PortRange) string {
+		var cq []string
+		for _, x := range xs {
+			cq = append(cq, fmt.Sprintf("(%d, %d)", x.First, x.Last))
+		}
+		return coqListT(cq, "nP")
+	}
+	ids := func(xs []string) string {
+		var cq []string
+		for _, x := range xs {
+			cq = append(cq, fmt.Sprintf("%d", u.ids[x]))
+		}
+		return coqListT(cq, "nN")
+	}
+	icmpC, notIcmpC := "oI", "oI"
+	switch ic := pr.Icmp.(type) {
+	case *proto.Rule_IcmpType:
+		icmpC = fmt.Sprintf("(sI (IcmpType %d))", ic.IcmpType)
+	case *proto.Rule_IcmpTypeCode:
+		icmpC = fmt.Sprintf("(sI (IcmpTypeCode %d %d))", ic.IcmpTypeCode.Type, ic.IcmpTypeCode.Code)
+	}
+	switch ic := pr.NotIcmp.(type) {
+	case *proto.Rule_NotIcmpType:
+		notIcmpC = fmt.Sprintf("(sI (IcmpType %d))", ic.NotIcmpType)
+	case *proto.Rule_NotIcmpTypeCode:
+		notIcmpC = fmt.Sprintf("(sI (IcmpTypeCode %d %d))", ic.NotIcmpTypeCode.Type, ic.NotIcmpTypeCode.Code)
+	}
+	pC, pnC := protoC(pr.Protocol)
+	npC, npnC := protoC(pr.NotProtocol)
+	rule := fmt.Sprintf("(Build_rule %s %s %s %s %s %s %s %s %s %s %s %s %s %s %s %s %s %s %s %s %s %s %s)",
+		actionCoq[strings.ToLower(pr.Action)], ipver, pC, nets(pr.SrcNet), ports(pr.SrcPorts), ids(pr.SrcNamedPortIpSetIds),
+		nets(pr.DstNet), ports(pr.DstPorts), ids(pr.DstNamedPortIpSetIds), icmpC,
+		ids(pr.SrcIpSetIds), ids(pr.DstIpSetIds), ids(pr.DstIpPortSetIds), npC, nets(pr.NotSrcNet), ports(pr.NotSrcPorts),
+		nets(pr.NotDstNet), ports(pr.NotDstPorts), notIcmpC, ids(pr.NotSrcIpSetIds), ids(pr.NotDstIpSetIds),
+		ids(pr.NotSrcNamedPortIpSetIds), ids(pr.NotDstNamedPortIpSetIds))
+	return fmt.Sprintf("(Build_brule %s %s %s)", rule, pnC, npnC)
+}
+
+// genKeyRule: a rule whose code performs SEVERAL IP-set-type lookups with the same on-stack key (one leg): a selector
+// set (positive and/or negated, or an IP+port set), then a port match with 0-6 numeric ranges (each a possible split
+// point) and 1-2 named-port sets (positive or negated).  Little else, so that those lookups decide the rule.
+func (u *universe) genKeyRule(r *rng, action string) ruleG {
+	pr := &proto.Rule{Action: action}
+	crit := 0
+	pnum := []int{6, 17}[r.intn(2)]
+	if r.pct(85) {
+		if r.pct(50) {
+			pr.Protocol = &proto.Protocol{NumberOrName: &proto.Protocol_Number{Number: int32(pnum)}}
+		} else {
+			pr.Protocol = &proto.Protocol{NumberOrName: &proto.Protocol_Name{Name: map[int]string{6: "tcp", 17: "udp"}[pnum]}}
+		}
+		crit++
+	}
+	netSet := func(n int) []string {
+		var out []string
+		for i := 0; i < n; i++ {
+			out = append(out, u.netSets[r.intn(len(u.netSets))].name)
+		}
+		return out
+	}
+	portSet := func(n int) []string {
+		var out []string
+		for i := 0; i < n; i++ {
+			out = append(out, u.portSets[r.intn(len(u.portSets))].name)
+		}
+		return out
+	}
+	ranges := func() []*proto.PortRange {
+		var out []*proto.PortRange
+		for k := r.intn(7); k > 0; k-- {
+			rg := u.ranges[r.intn(len(u.ranges))]
+			if rg[1]-rg[0] > 2000 {
+				rg = [2]int{rg[0], rg[0] + r.intn(50)} // narrow, so that the named-port lookup is reached
+			}
+			out = append(out, &proto.PortRange{First: int32(rg[0]), Last: int32(rg[1])})
+		}
+		return out
+	}
+	leg := []string{"src", "dst", "src", "dst", "both"}[r.intn(5)]
+	doSrc := leg == "src" || leg == "both"
+	doDst := leg == "dst" || leg == "both"
+	if doSrc {
+		switch r.intn(4) {
+		case 0:
+			pr.SrcIpSetIds = netSet(1 + r.intn(2))
+		case 1:
+			pr.NotSrcIpSetIds = netSet(1 + r.intn(2))
+		case 2:
+			pr.SrcIpSetIds, pr.NotSrcIpSetIds = netSet(1), netSet(1)
+		case 3:
+			pr.NotSrcIpSetIds = netSet(2)
+		}
+		if r.pct(25) {
+			pr.NotSrcPorts, pr.NotSrcNamedPortIpSetIds = ranges(), portSet(1+r.intn(2))
+		} else {
+			pr.SrcPorts, pr.SrcNamedPortIpSetIds = ranges(), portSet(1+r.intn(2))
+			if r.pct(20) {
+				pr.NotSrcNamedPortIpSetIds = portSet(1)
+			}
+		}
+		crit += 2
+	}
+	if doDst {
+		switch r.intn(5) {
+		case 0:
+			pr.DstIpSetIds = netSet(1)
+		case 1:
+			pr.NotDstIpSetIds = netSet(1 + r.intn(2))
+		case 2:
+			pr.DstIpSetIds, pr.NotDstIpSetIds = netSet(1), netSet(1)
+		case 3:
+			pr.DstIpPortSetIds = portSet(1)
+		case 4:
+			pr.NotDstIpSetIds = netSet(2)
+		}
+		if r.pct(25) {
+			pr.NotDstPorts, pr.NotDstNamedPortIpSetIds = ranges(), portSet(1+r.intn(2))
+		} else {
+			pr.DstPorts, pr.DstNamedPortIpSetIds = ranges(), portSet(1+r.intn(2))
+			if r.pct(20) {
+				pr.NotDstNamedPortIpSetIds = portSet(1)
+			}
+		}
+		crit += 2
+	}
+	return ruleG{pr: pr, coq: u.coqOfRule(pr), criteria: crit}
+}
+
+// In the key-stress stream the named-port members live inside the selector sets, so that a packet can pass the
+// selector lookup AND hit (or just miss) the named-port lookup.
+func (u *universe) nestPortMembers(r *rng) {
+	var cands []cidrT
+	for _, s := range u.netSets {
+		cands = append(cands, s.nets...)
+	}
+	if len(cands) == 0 {
+		c := u.cidrs[r.intn(len(u.cidrs))]
+		u.netSets[0].nets = append(u.netSets[0].nets, c)
+		cands = append(cands, c)
+	}
+	for i := range u.portSets {
+		for j := range u.portSets[i].ports {
+			if r.pct(70) {
+				c := cands[r.intn(len(cands))]
+				if r.pct(50) {
+					u.portSets[i].ports[j].addr = c.first()
+				} else {
+					u.portSets[i].ports[j].addr = c.last()
+				}
+			}
+		}
+	}
+}
+
 type caseGen struct {
 	u        *universe
 	r        *rng
@@ -571,6 +761,9 @@ func (g *caseGen) genRules(profile bool) ([]polprog.Rule, []string) {
 			f = "simple" // few criteria, so that Pass rules match and a later profile gets to decide
 		}
 		rg := g.u.genRule(g.r, a, f)
+		if g.u.keyStress && !profile && g.r.pct(65) {
+			rg = g.u.genKeyRule(g.r, a)
+		}
 		g.matchID++
 		rs = append(rs, polprog.Rule{Rule: rg.pr, MatchID: g.matchID})
 		g.rules = append(g.rules, rg.pr)
@@ -900,9 +1093,13 @@ func (g *caseGen) aim(pr *proto.Rule, p probeT) probeT {
 	} else if a, ok := g.netSetEdge(pr.SrcIpSetIds); ok {
 		p.src = a
 	}
-	if x, ok := g.rangeEdge(pr.SrcPorts); ok {
+	if m, ok := g.portMember(pr.SrcNamedPortIpSetIds); ok && (len(pr.SrcPorts) == 0 || g.r.pct(50)) {
+		// the verdict then hangs on the named-port lookup (in the key-stress stream the member also lies in the selector sets)
+		p.src, p.proto, p.sport = m.addr, m.proto, m.port
+	} else if x, ok := g.rangeEdge(pr.SrcPorts); ok {
 		p.sport = x
-	} else if m, ok := g.portMember(pr.SrcNamedPortIpSetIds); ok {
+	}
+	if m, ok := g.portMember(pr.NotSrcNamedPortIpSetIds); ok && g.r.pct(40) {
 		p.src, p.proto, p.sport = m.addr, m.proto, m.port
 	}
 	if a, ok := g.netEdge(pr.DstNet); ok {
@@ -910,9 +1107,12 @@ func (g *caseGen) aim(pr *proto.Rule, p probeT) probeT {
 	} else if a, ok := g.netSetEdge(pr.DstIpSetIds); ok {
 		p.post = a
 	}
-	if x, ok := g.rangeEdge(pr.DstPorts); ok {
+	if m, ok := g.portMember(pr.DstNamedPortIpSetIds); ok && (len(pr.DstPorts) == 0 || g.r.pct(50)) {
+		p.post, p.proto, p.postp = m.addr, m.proto, m.port
+	} else if x, ok := g.rangeEdge(pr.DstPorts); ok {
 		p.postp = x
-	} else if m, ok := g.portMember(pr.DstNamedPortIpSetIds); ok {
+	}
+	if m, ok := g.portMember(pr.NotDstNamedPortIpSetIds); ok && g.r.pct(40) {
 		p.post, p.proto, p.postp = m.addr, m.proto, m.port
 	}
 	if m, ok := g.portMember(pr.DstIpPortSetIds); ok {
@@ -1002,6 +1202,10 @@ func main() {
 		case x < 6:
 			g.feat = "profile-pass"
 		}
+		if g.feat == "" && !u.stress && r.pct(20) {
+			u.keyStress = true
+			u.nestPortMembers(r)
+		}
 		var tags []string
 		rules := polprog.Rules{NoProfileMatchID: 999999}
 		var tiersC, profC, preC, fwdC, normC, hprofC = "nT", "nPr", "nT", "nT", "nT", "nPr"
@@ -1063,7 +1267,11 @@ func main() {
 			opts = append(opts, polprog.WithAllowDenyJumps(allow, deny))
 		}
 		base, stride := r.intn(20), 0
-		if r.pct(55) || u.stress {
+		if u.keyStress {
+			// the jump limit is swept below
+			stride = 100 + r.intn(1000)
+			tags = append(tags, "split:enabled", "split:ipset-key-sweep")
+		} else if r.pct(55) || u.stress {
 			stride = 100 + r.intn(1000)
 			maxJ := []int{3, 6, 10, 20, 40, 80}[r.intn(6)]
 			if u.stress {
@@ -1092,34 +1300,66 @@ func main() {
 			tags = append(tags, "ipv4")
 		}
 
-		res := compile(u, rules, opts)
-		resC, nInsn := "CPanic", 0
-		switch res.kind {
-		case "ok":
-			var s string
-			s, nInsn = insnsCoq(res.progs)
-			resC = "(COk " + s + ")"
-			tags = append(tags, fmt.Sprintf("subprograms:%d", min(len(res.progs), 5)))
-		case "error":
-			resC = "CError"
-		}
-		tags = append(tags, "compile:"+res.kind)
-		stats["insns"] += nInsn
-		stats["rules"] += g.nRules
-
-		rulesC := fmt.Sprintf("(Build_brules %s %s %s %s %s %s %s %s %s)", coqBool(rules.ForHostInterface), coqBool(rules.SuppressNormalHostPolicy),
-			coqBool(rules.ForXDP), tiersC, profC, preC, fwdC, normC, hprofC)
 		probes := g.probes(*nprobes)
-		cfgC := fmt.Sprintf("%s %s %s %d %d %d %d", coqBool(v6), vrCoq, coqBool(useJmps), allow, deny, base, stride)
-		coq := fmt.Sprintf("(Build_case %s\n %s\n %s\n %s\n [%s])%%N", cfgC, rulesC, u.setsCoq(), resC, strings.Join(probes, ";\n "))
-		sort.Strings(tags)
-		l := line{Coq: coq, NT: res.kind == "ok" && g.nRules >= 2 && g.nCrit >= 1 && !g.invalid, Feat: feat, Result: res.kind + ":" + res.msg,
-			Key:  cfgC + rulesC + u.setsCoq(),
-			Tags: tags,
-			Sample: map[string]any{"rules": g.nRules, "criteria": g.nCrit, "subprograms": len(res.progs), "instructions": nInsn,
-				"compile": res.kind, "msg": res.msg, "ipv6": v6, "xdp": rules.ForXDP, "forHost": rules.ForHostInterface}}
-		if err := enc.Encode(l); err != nil {
-			panic(err)
+		// key-stress stream: the same rules and probes compiled with several jump limits, drawn over the whole range
+		// of jump counts of the unsplit program, so that over the run every split point inside a rule is hit
+		limits := []int{0}
+		if u.keyStress {
+			total := 2
+			if un := compile(u, rules, opts); un.kind == "ok" {
+				for _, pr := range un.progs {
+					for _, in := range pr {
+						if c := in.OpClass(); c == asm.OpClassJump64 || c == asm.OpClassJump32 {
+							total++
+						}
+					}
+				}
+			}
+			limits = nil
+			for k := 0; k < 3; k++ {
+				limits = append(limits, 2+r.intn(total))
+			}
+		}
+		baseOpts, baseTags := opts, tags
+		for li, limit := range limits {
+			if li > 0 {
+				i++
+				if i >= *n {
+					break
+				}
+			}
+			opts, tags = append([]polprog.Option(nil), baseOpts...), append([]string(nil), baseTags...)
+			if limit > 0 {
+				opts = append(opts, polprog.WithPolicyMapIndexAndStride(base, stride), polprog.VerifWithMaxJumps(limit))
+			}
+			res := compile(u, rules, opts)
+			resC, nInsn := "CPanic", 0
+			switch res.kind {
+			case "ok":
+				var s string
+				s, nInsn = insnsCoq(res.progs)
+				resC = "(COk " + s + ")"
+				tags = append(tags, fmt.Sprintf("subprograms:%d", min(len(res.progs), 5)))
+			case "error":
+				resC = "CError"
+			}
+			tags = append(tags, "compile:"+res.kind)
+			stats["insns"] += nInsn
+			stats["rules"] += g.nRules
+
+			rulesC := fmt.Sprintf("(Build_brules %s %s %s %s %s %s %s %s %s)", coqBool(rules.ForHostInterface), coqBool(rules.SuppressNormalHostPolicy),
+				coqBool(rules.ForXDP), tiersC, profC, preC, fwdC, normC, hprofC)
+			cfgC := fmt.Sprintf("%s %s %s %d %d %d %d", coqBool(v6), vrCoq, coqBool(useJmps), allow, deny, base, stride)
+			coq := fmt.Sprintf("(Build_case %s\n %s\n %s\n %s\n [%s])%%N", cfgC, rulesC, u.setsCoq(), resC, strings.Join(probes, ";\n "))
+			sort.Strings(tags)
+			l := line{Coq: coq, NT: res.kind == "ok" && g.nRules >= 2 && g.nCrit >= 1 && !g.invalid, Feat: feat, Result: res.kind + ":" + res.msg,
+				Key:  fmt.Sprint(limit) + cfgC + rulesC + u.setsCoq(),
+				Tags: tags,
+				Sample: map[string]any{"rules": g.nRules, "criteria": g.nCrit, "subprograms": len(res.progs), "instructions": nInsn,
+					"compile": res.kind, "msg": res.msg, "ipv6": v6, "xdp": rules.ForXDP, "forHost": rules.ForHostInterface, "maxJumps": limit}}
+			if err := enc.Encode(l); err != nil {
+				panic(err)
+			}
 		}
 	}
 	enc.Encode(line{Stats: map[string]any{"variant_profile_log": vr.profileLog, "variant_proto_names": vr.protoNames,
